@@ -73,7 +73,8 @@ fn insert_links(nodes: &mut Vec<Node>, st: &mut Ins, in_pre: bool) {
                 if !in_pre && w.chars().next().map(|c| c.is_ascii_uppercase()).unwrap_or(false) =>
             {
                 if st.n < st.max && st.rng.below(100) < st.prob {
-                    let href = match st.rng.below(4) {
+                    let href = match st.rng.below(5) {
+                        4 => String::new(), // href="" is still a link (with an empty target)
                         0 => format!("/{}", st.n),
                         1 => "/7".to_string(), // repeated target
                         2 => format!("/{}/{}", st.n, 1234567890123u64),
@@ -84,6 +85,13 @@ fn insert_links(nodes: &mut Vec<Node>, st: &mut Ins, in_pre: bool) {
                         El::with("a", vec![Node::Word(w.clone())])
                             .attr("href", &href)
                             .node(),
+                    );
+                } else if st.n < st.max && st.rng.below(100) < 3 {
+                    // footnote-style numeric link inside a superscript
+                    let href = format!("/{}", 7000 + st.n);
+                    st.n += 1;
+                    insert_after = Some(
+                        El::with("sup", vec![El::with("a", vec![Node::Word(format!("{}", st.rng.range(1, 99)))]).attr("href", &href).node()]).node(),
                     );
                 } else if st.rng.below(100) < 4 {
                     // an empty link or an href-less anchor next to the word
@@ -290,6 +298,12 @@ pub fn check_footnotes(
     // (ii)/(iii) references
     for (k, l) in links.iter().enumerate() {
         out.inc("links_checked");
+        if l.token.chars().all(|c| c.is_ascii_digit()) {
+            // numeric link text (footnote-style superscripts): not searchable; the
+            // list check above already counted it
+            out.inc("numeric_link_texts");
+            continue;
+        }
         let Some(pos) = s.find(&l.token) else {
             out.inc("link_token_wrapped_or_absent");
             continue;
